@@ -114,12 +114,12 @@ impl Scenario for RunStub {
         tier.pick(20_000, 800_000)
     }
     fn generate(&self, g: &mut Gen, _tier: Tier, _idx: u64) -> Value {
-        let nc = g.usize(1, 32);
+        let nc = crate::core::size(g, 1, 32, 70);
         let n_calls = g.usize(1, 4);
-        let calls: Vec<Value> = (0..n_calls).map(|_| json!([g.usize(0, 40), g.usize(0, 40)])).collect();
+        let calls: Vec<Value> = (0..n_calls).map(|_| json!([crate::core::size(g, 0, 40, 260), crate::core::size(g, 0, 40, 260)])).collect();
         json!({
             "elt": *g.pick(&["f64", "f64", "f32", "i32", "usize"]),
-            "n_chains": nc, "dim": g.usize(1, 16), "calls": calls, "inner_points": g.range(0, 2),
+            "n_chains": nc, "dim": crate::core::size(g, 1, 16, 130), "calls": calls, "inner_points": g.range(0, 2),
             "real_rayon": g.bool(1, 10),
             "special": g.bool(1, 4),
             "sim": gen_sim(g, nc + 1, false),
